@@ -53,9 +53,13 @@ def dump (v : Sv String M (List Float)) : String :=
 def target (name : String) : Option (Tag String) :=
   if name == "QSW" then some (.loc .qsw) else if name == "TNW" then some (.loc .tnw) else (getFrame name).map .frame
 
-/-- one operation (two tokens): `h <name>` cov hop, `s <name>` state hop, `c <name>` / `c -` state copy (with frame) -/
-def step (E : Env String M (List Float)) (v : Sv String M (List Float)) (kind name : String) : Except String (Sv String M (List Float)) :=
-  if kind == "h" then
+/-- one operation (two tokens): `h <name>` cov hop, `s <name>` state hop, `c <name>` / `c -` state copy (with frame),
+`a -` the covariance is attached again to its state as that state is expressed now (`c = sv.cov; sv.cov = c`): the state
+was given as `x0` in `f0` and has only changed frame since -/
+def step (E : Env String M (List Float)) (f0 : String) (x0 : List Float) (v : Sv String M (List Float)) (kind name : String) : Except String (Sv String M (List Float)) :=
+  if kind == "a" then
+    .ok { v with cov := attach v.cov v.frame (if v.frame == f0 then x0 else E.apply (E.conv f0 v.frame) x0) }
+  else if kind == "h" then
     match target name with
     | some t => .ok { v with cov := setFrame E v.cov t }
     | none => .error "unknown-frame"
@@ -222,7 +226,7 @@ def handle : List String → Option String
           let mut err : Option String := none
           for op in pairs ops do
             if err.isNone then
-              match step E v op.1 op.2 with
+              match step E f0 (fs.take 6) v op.1 op.2 with
               | .ok v' => v := v'; out := out ++ [dump v]
               | .error e => err := some e
           match err with
